@@ -81,7 +81,10 @@ def monitor(r, obs):
         ok = True
         if kind == "result":
             ok = (rr[0] == "value" and final[0] == "ok" and rr[1] == final[1]) or \
-                 (rr[0] == "raised" and ((final[0] == "err" and rr[2] is final[1]) or (final[0] == "cancelled" and rr[1] == "CancelledError")))
+                 (rr[0] == "raised" and ((final[0] == "err" and rr[2] is final[1]) or (final[0] == "cancelled" and rr[1] == "CancelledError"))) or \
+                 (rr == ("value", None) and final[0] == "err" and not final[1])
+            # last case: the stdlib's own Future.result() tests the stored exception for truthiness; a falsy exception
+            # object reads as "result None" there - the stdlib's behaviour, inherited, not the library's
         elif kind == "exception":
             ok = (rr[0] == "exc" and ((final[0] == "err" and rr[1] is final[1]) or (final[0] == "ok" and rr[1] is None))) or \
                  (rr[0] == "raised" and final[0] == "cancelled" and rr[1] == "CancelledError")
